@@ -111,6 +111,7 @@ let run_case fixed toks =
            toksr.(i) <- "-"
          | ["yR"] -> y := ns_boot cfgy yn !y.ns_log x_alive; toksr.(i) <- "-"
          | ["b"] -> ()
+         | ["xpad"; _] -> toksr.(i) <- "-"
          | _ -> failwith ("bad op " ^ op));
         settle ();
         if op = "b" then toksr.(i) <- Printf.sprintf "X[%s]Y[%s]" (log_s !x.ns_log) (log_s !y.ns_log))
